@@ -383,7 +383,7 @@ func ruleC11(c *Ctx) {
 		}
 		adv[shortFn(r.Root)] = set
 	}
-	db := c.kernel("types.(*EncryptedAssertion).DecryptBytes")
+	db := c.kernel("types.(*EncryptedAssertion).DecryptBytes", "*", "-types.(*EncryptedKey).DecryptSymmetricKey")
 	handled := map[string]bool{}
 	if db != nil {
 		// a case is "handled" if some path with that equality fact reaches a cipher construction (NewGCM / NewCBCDecrypter)
@@ -433,7 +433,7 @@ func ruleC11(c *Ctx) {
 	}
 
 	// R2
-	dk := c.kernel("types.(*EncryptedKey).DecryptSymmetricKey")
+	dk := c.kernel("types.(*EncryptedKey).DecryptSymmetricKey", "*")
 	if dk != nil {
 		cases := caseConsts(dk)
 		algCases := cases["EK.EncryptionMethod.Algorithm"]
